@@ -7,7 +7,7 @@ import eng
 import gen
 import world as W
 from common import VERIF, first_diff, run_driver
-from framework import known_findings, lean_obligations, scn_hash
+from framework import known_findings, lean_obligations, scn_hash, safe_probe
 
 PROFILE = gen.Profile(
     max_states=4, extra_trans=(1, 5), p_multi_event=0.3,
@@ -676,11 +676,11 @@ def run_findings(ctx):
 def run(ctx):
     lean_obligations(ctx)
     run_findings(ctx)
-    ncases, rf = probe_model_rooted_copies(ctx.seed, 150 if ctx.tier == "quick" else 2000)
+    ncases, rf = safe_probe(probe_model_rooted_copies, ctx.seed, 150 if ctx.tier == "quick" else 2000, pair=True)
     ctx.coverage["model_rooted_copies"] = ncases
     if rf:
         ctx.violation(ctx.write_replay("model_rooted_copy.txt", "\n".join(rf[:10]) + "\n"), rf[0][:160])
-    ncases, ef = probe_equal_machines(ctx.seed, 120 if ctx.tier == "quick" else 2000)
+    ncases, ef = safe_probe(probe_equal_machines, ctx.seed, 120 if ctx.tier == "quick" else 2000, pair=True)
     ctx.coverage["equal_machines_cases"] = ncases
     if ef:
         ctx.violation(ctx.write_replay("equal_machines.txt", "\n".join(ef[:10]) + "\n"), ef[0][:200])
